@@ -1587,7 +1587,11 @@ def remove_redundant_transpose_pairs_ir(graph: ir.Graph) -> None:
                 for idx, iv in enumerate(ins):
                     if iv in trans_in_map:
                         node.replace_input_with(idx, trans_in_map[iv])
-                _refresh_elementwise_output_shape(node)
+            # Refresh in graph (topological) order so that every node sees the
+            # already-updated shapes of its producers.
+            for node in nodes:
+                if node in elem_nodes:
+                    _refresh_elementwise_output_shape(node)
 
             # Remove inverse transposes on outputs of the DAG.
             for t_out_node in output_transposes:
@@ -1764,6 +1768,8 @@ def remove_redundant_transpose_pairs_ir(graph: ir.Graph) -> None:
                     ir.convenience.replace_all_uses_with(
                         t1_out, t1_in, replace_graph_outputs=True
                     )
+                    for allowed_node in allowed_nodes:
+                        _refresh_elementwise_output_shape(allowed_node)
                     new_src = _node_output(last_allowed) or t1_in
                 else:
                     new_src = t1_in
